@@ -47,7 +47,7 @@ REQUIRED = dict(monitors=['intensity-per-angle', 'flux', 'eclipse-spectrum', 'di
                          'rerun:evaluated-after-change', 'mode:ktable', 'ktable:continuum-only-model',
                          'ktable:model_contrib-entry-judged', 'ktable-mode:no-molecular-absorber',
                          'fault:fired:temperature', 'fault:fired:chemistry', 'fault:fired:contribution', 'fault:fired:pressure',
-                         'several:evaluation-judged', 'several:set_quadratures-on-another-model', 'wn-dtype:i', 'T-route:mixin', 'chemistry:makefree+file', 'nlayers:1', 'star:refill-same-size', 'star:temperature-written'])
+                         'several:evaluation-judged', 'several:set_quadratures-on-another-model', 'several:one-star-for-all-models-each-on-its-own-window', 'wn-dtype:i', 'T-route:mixin', 'chemistry:makefree+file', 'nlayers:1', 'star:refill-same-size', 'star:temperature-written'])
 CUT = math.exp(-10.0)
 EPS = float(np.finfo(float).eps)
 _state = {}
@@ -543,10 +543,14 @@ def wl_several(ctx, rng):
             v['planet_radius'] = float(v['planet_radius'] * rng.uniform(1.0, 1.2))
         variants.append(v if world.is_bound(v) else dict(spec))
     models = [realise(variants[0], kinds[0])]
+    # every third case: ONE star object serves all the models (a script comparing planets of one system), and each model is
+    # evaluated on its own window of the native grid (windows of the same size, other wavenumbers)
+    shared_star = ctx.case['index'] % 3 == 1
     for v, k in zip(variants[1:], kinds[1:]):
-        m = world.build_model(v, k, ngauss=v['ngauss'])
+        m = world.build_model(v, k, ngauss=v['ngauss'], share={'star': models[0].star} if shared_star else None)
         world.add_contributions(m, v)
         models.append(m)
+    windows = {}
     odd = world.build_model(spec, 'emission', ngauss=spec['ngauss'])       # the one that gets its own quadrature
     world.add_contributions(odd, spec)
     built = [False] * len(models)
@@ -569,7 +573,18 @@ def wl_several(ctx, rng):
             if not built[i]:
                 models[i].build()
                 built[i] = True
-            out = models[i].model()
+            if shared_star:
+                native = np.asarray(models[i].nativeWavenumberGrid, dtype=float)
+                if len(native) >= 4:
+                    kw_ = max(2, len(native) // 2)
+                    if i not in windows:
+                        windows[i] = native[(i * 2) % (len(native) - kw_ + 1):][:kw_].copy()
+                    out = models[i].model(wngrid=windows[i])
+                    ctx.observe('several:one-star-for-all-models-each-on-its-own-window')
+                else:
+                    out = models[i].model()
+            else:
+                out = models[i].model()
         except InvalidModelException as e:
             if models[i].temperature.__class__.__name__ != 'Guillot2010':
                 raise
